@@ -608,6 +608,10 @@ func (db *DB) recoverJournal() error {
 				}
 				batchSeq, batchLen, err = decodeBatchToMem(buf.Bytes(), db.seq, mdb)
 				if err != nil {
+					if err == errBatchObsolete {
+						// Already in a table, neither corrupted nor invalid.
+						continue
+					}
 					if !strict && errors.IsCorrupted(err) {
 						db.s.logf("journal error: %v (skipped)", err)
 						// We won't apply sequence number as it might be corrupted.
@@ -750,6 +754,10 @@ func (db *DB) recoverJournalRO() error {
 				}
 				batchSeq, batchLen, err = decodeBatchToMem(buf.Bytes(), db.seq, mdb)
 				if err != nil {
+					if err == errBatchObsolete {
+						// Already in a table, neither corrupted nor invalid.
+						continue
+					}
 					if !strict && errors.IsCorrupted(err) {
 						db.s.logf("journal error: %v (skipped)", err)
 						// We won't apply sequence number as it might be corrupted.
